@@ -131,7 +131,10 @@ func verifRoot() string {
 }
 
 func verifSigMatch(pattern, sig string) bool {
-	if strings.HasSuffix(pattern, "*") {
+	if strings.Contains(pattern, "*") {
+		return verifGlob(pattern, sig)
+	}
+	if false {
 		return strings.HasPrefix(sig, strings.TrimSuffix(pattern, "*"))
 	}
 	return pattern == sig
@@ -516,3 +519,24 @@ func verifMsgKind(m []byte) string {
 }
 
 func jsonUnmarshal(s string, v interface{}) error { return json.Unmarshal([]byte(s), v) }
+
+// verifGlob matches a signature against a pattern in which '*' stands for any run of characters.
+func verifGlob(pattern, s string) bool {
+	parts := strings.Split(pattern, "*")
+	if !strings.HasPrefix(s, parts[0]) {
+		return false
+	}
+	s = s[len(parts[0]):]
+	for i := 1; i < len(parts); i++ {
+		p := parts[i]
+		if i == len(parts)-1 {
+			return strings.HasSuffix(s, p)
+		}
+		j := strings.Index(s, p)
+		if j < 0 {
+			return false
+		}
+		s = s[j+len(p):]
+	}
+	return true
+}
